@@ -240,6 +240,11 @@ def _warn_only_if(node):
             ok = False
         elif isinstance(st, (ast.Assign, ast.AugAssign)):
             tgts = st.targets if isinstance(st, ast.Assign) else [st.target]
+            pure_reduction = (isinstance(st, ast.Assign) and isinstance(st.value, ast.Call) and isinstance(st.value.func, ast.Attribute)
+                              and isinstance(st.value.func.value, ast.Name) and st.value.func.value.id == 'np'
+                              and st.value.func.attr in ('min', 'max', 'abs') and all(isinstance(t, ast.Name) for t in tgts))
+            if pure_reduction:
+                continue         # e.g. `val = np.min(H)` feeding the message
             if not all(isinstance(t, ast.Name) and (t.id.startswith('warn') or t.id.endswith('text') or t.id.endswith('str')) for t in tgts):
                 ok = False
             # right-hand side: string literal / .format(...) on a literal or on such a name
@@ -480,6 +485,8 @@ class Interp(object):
                 self.lookup(tst.id, env)
                 return       # the branch only builds and emits a warning (no-op, DESIGN 2.1): no case split
             c = yield from self.ev(node.test, env)
+            if is_sym(c) and isinstance(node.test, ast.Call) and _warn_only_if(node):
+                return       # `if np.any(...): <warn>`: test evaluated (it may raise), no case split
             if self.truth(c):
                 yield from self.exec_block(node.body, env)
             else:
